@@ -82,6 +82,34 @@ fn observe<E: Pairing>(who: &str, a: &N, a2: &N, b: &N) -> Result<Vec<(String, V
         o.push((format!("{name}/compressed"), ser(&pt, true)));
         o.push((format!("{name}/uncompressed"), ser(&pt, false)));
     }
+    // value round trips (equality on the in-memory representation) and mixed projective + affine addition
+    for (name, pt) in [("G1", g1), ("aG1", p)] {
+        if E::G1Affine::deserialize_compressed(&ser(&pt, true)[..]).ok() != Some(pt) || E::G1Affine::deserialize_uncompressed(&ser(&pt, false)[..]).ok() != Some(pt) {
+            return Err(format!("{who}: deserialize(serialize({name})) != {name}"));
+        }
+    }
+    for (name, pt) in [("G2", g2), ("bG2", q)] {
+        if E::G2Affine::deserialize_compressed(&ser(&pt, true)[..]).ok() != Some(pt) || E::G2Affine::deserialize_uncompressed(&ser(&pt, false)[..]).ok() != Some(pt) {
+            return Err(format!("{who}: deserialize(serialize({name})) != {name}"));
+        }
+    }
+    {
+        let mixed1 = (g1.into_group() + p).into_affine();
+        let mixed2 = (g2.into_group() + q).into_affine();
+        let full1 = (g1.into_group() + p.into_group()).into_affine();
+        let full2 = (g2.into_group() + q.into_group()).into_affine();
+        o.push(("G1+aG1(mixed)/uncompressed".into(), ser(&mixed1, false)));
+        o.push(("G2+bG2(mixed)/uncompressed".into(), ser(&mixed2, false)));
+        o.push(("(2G2-G2)/uncompressed".into(), ser(&(g2.into_group().double() - g2.into_group()).into_affine(), false)));
+        if mixed1 != full1 || mixed2 != full2 {
+            return Err(format!("{who}: mixed projective + affine addition differs from projective + projective addition"));
+        }
+        let msm = <E::G2 as ark_ec::VariableBaseMSM>::msm(&[g2, q], &[sa, sb]).map_err(|_| format!("{who}: msm length"))?;
+        if msm != g2.into_group() * sa + q.into_group() * sb {
+            return Err(format!("{who}: G2 MSM differs from the sum of the products"));
+        }
+        o.push(("msm([G2,bG2],[a,b])/uncompressed".into(), ser(&msm.into_affine(), false)));
+    }
     let e_pq = E::pairing(p, q);
     let e_gg = E::pairing(g1, g2);
     o.push(("e(aG1,bG2)/compressed".into(), ser(&e_pq, true)));
